@@ -514,6 +514,23 @@ func c11Safe(t *c11Tree, script string) bool {
 	return true
 }
 
+// Does the tree set a handler on a value that is then composed further (an O/S node below a FlatMap / A node)?  Whether
+// FlatMap's result inherits the handlers of its operands is not fixed by the property (the library does not); such trees
+// are therefore subscribed only after both handlers have been set explicitly on the composed value.
+func c11InnerHandler(t *c11Tree, below bool) bool {
+	switch t.kind {
+	case "O", "S":
+		return below || c11InnerHandler(t.kids[0], below)
+	case "FR", "FL", "FC", "A":
+		for _, k := range t.kids {
+			if c11InnerHandler(k, true) {
+				return true
+			}
+		}
+	}
+	return false
+}
+
 func c11Gen(tier string, rng *rand.Rand, emit func(string)) map[string]interface{} {
 	maxNodes, nRandom, depth := 4, 2500, 6
 	if tier == "thorough" {
@@ -527,6 +544,12 @@ func c11Gen(tier string, rng *rand.Rand, emit func(string)) map[string]interface
 	}
 	count := 0
 	put := func(t *c11Tree, script string) {
+		if c11InnerHandler(t, false) && (strings.Contains(script, "s") || strings.Contains(script, "y")) {
+			ops := strings.Split(script, " ; ")
+			if !(len(ops) >= 2 && ops[0][0] == 'o' && ops[1][0] == 'u') {
+				script = "o0 ; u0 ; " + script
+			}
+		}
 		if !c11Safe(t, script) {
 			return
 		}
